@@ -102,7 +102,7 @@ def run_cfg_history(flags, init_en, init_div, ops, rxpadding=0, started=False, c
         info["log"] = list(dev.log)
         return out
 
-    r, sim = vsim.run_sim(scenario, seed=seed)
+    r, sim = vsim.run_sim(scenario, seed=seed, time_limit=3000.0, real_limit=30.0)
     info["errors"] = [(n, repr(e)) for n, e, _ in sim.errors]
     if isinstance(r, BaseException):
         raise r
